@@ -4,9 +4,11 @@ import os
 import sys
 import tempfile
 
+from vt import sysx
+
 ID = 'C29'
 ENGINE = 'seq'
-TECHNIQUE = 'runtime monitoring: generated create/assign/read histories against a per-instance dictionary model'
+TECHNIQUE = 'runtime monitoring: generated create/assign/read histories against a per-instance dictionary model; concurrent reader/writer cases under a deterministic cooperative scheduler (opcode-level yield points), partly enumerated systematically (delay-bounded)'
 RULE = ('generated classes using MetaThreadSafeAttributes (1-4 attributes, optional subclass adding attributes, via the metaclass directly '
         'or via miros.ThreadSafeAttributes), 2-5 instances created at random points, histories of plain assignment, augmented assignment '
         '(+=, -=, *=) and reads; the statements are real source lines of a generated module (the descriptor inspects its caller\'s source). '
@@ -16,11 +18,11 @@ RULE = ('generated classes using MetaThreadSafeAttributes (1-4 attributes, optio
         'bytecode boundary of miros/thread_safe_attributes.py and of the statements; an owner must read back exactly what its own history '
         'gives, any other reader a value that instance held at some time (never another instance\'s), the fresh instance 0, and the final '
         'values must be those of the owners\' histories. distinct_nontrivial = distinct (classes, attributes, instances, history length, '
-        'ops used) tuples, and for concurrent cases distinct context-switch sequences')
+        'ops used) tuples, and for concurrent cases distinct context-switch sequences. ' + sysx.RULE_TEXT % (1, 2))
 CASES = {'quick': 1500, 'thorough': 100000}
-BUDGET = {'quick': 150, 'thorough': 300}
+BUDGET = {'quick': 150, 'thorough': 600}
 REQUIRE = {'statements': 10000, 'reads_compared': 50000, 'fresh_instance_reads': 2000, 'subclass_cases': 100,
-           'concurrent_runs': 150, 'concurrent_reads_of_foreign_instance': 300, 'switch_inside_descriptor': 100}
+           'concurrent_runs': 150, 'concurrent_reads_of_foreign_instance': 300, 'switch_inside_descriptor': 100, 'systematic_schedules': 500, 'systematic_scenarios_exhausted': 2}
 ASSUME = ['lost updates / errors / deadlocks on ONE shared instance are C27; the concurrent cases here let only the owner thread write an instance', 'one statement per source line']
 ANNOUNCE_CASES = True
 
@@ -39,19 +41,23 @@ def teardown_worker(ctx):
   shutil.rmtree(TMP, ignore_errors=True)
 
 
+SYS = {'quick': (8, 1, 3000, 60.0), 'thorough': (32, 2, 100000, 150.0)}
+
+
 def concurrent_case(ctx, n):
   import miros.thread_safe_attributes as TSA
   from vt import detsched as ds, wl_c27
   rng = ctx.rng('conc', n)
-  ninst = rng.randint(2, 4)
-  nthreads = rng.randint(2, 4)
+  small = getattr(ctx, 'small', False)
+  ninst = 2 if small else rng.randint(2, 4)
+  nthreads = 2 if small else rng.randint(2, 4)
   fresh = ninst                      # index of the never-assigned instance
   base = [1000 * (i + 1) for i in range(ninst)]
   plans, legal, own_model = [], {i: [base[i]] for i in range(ninst)}, {}
   legal[fresh] = [0]
   for t in range(nthreads):
     plan, cur = [], base[t] if t < ninst else None
-    for _ in range(rng.randint(2, 5)):
+    for _ in range(rng.randint(1, 2) if small else rng.randint(2, 5)):
       r = rng.random()
       if t < ninst and r < 0.45:
         if rng.random() < 0.5:
@@ -130,6 +136,9 @@ def concurrent_case(ctx, n):
 
 def run_case(ctx, n):
   if n % 5 == 4:
+    if n < 5 * SYS[ctx.tier][0]:
+      sysx.explore(ctx, n, concurrent_case, *SYS[ctx.tier][1:])      # systematic: every schedule within the deviation bound
+      return
     return concurrent_case(ctx, n)
   rng = ctx.rng('case', n)
   nattr = rng.randint(1, 4)
